@@ -39,6 +39,13 @@ CHECKS.update({
     technique='property-based testing of client call histories (independent client + reference codec) against a reference model'),
 })
 
+CHECKS.update({
+ 'C12': dict(level='exploration', design='3/C12',
+    text='Metamorphic + model: generated operation lists run through cpppo\'s own client (connector.operate) against a real TCP simulator under sampled (depth, multiple) settings x fragment off/on with tag state reset between runs: one result per operation in order, identical (status, value) sequences, equal to the typed-array model, final state equal, recorded bundles never mix route/send paths. Text clause: independently rendered operation strings must parse to exactly the structured operation; format_path/parse_path round trip. Exploration only.',
+    note='Trusted: CPython, Hypothesis, vp/model.py, my text renderer (written from the documented operation syntax). Unknown-tag operations are outside the quantifier and not generated.',
+    technique='metamorphic property-based testing (settings matrix) + reference model + text round trip'),
+})
+
 PENDING = {}
 
 def main():
